@@ -26,6 +26,10 @@ type PFile struct {
 	// separated and how lines are indented (everything the grammar allows where
 	// it says WHITESPACE): "" = one space / canonical indentation.
 	Layout string `json:"layout,omitempty"` // "" | wide | tabs | mixed
+	// EOL: line terminator of the file: "" = \n, "crlf" = \r\n, "cr" = a lone \r
+	// (the lexer accepts all three). Only for files without conditions: the
+	// text of a condition expression is taken verbatim.
+	EOL string `json:"eol,omitempty"`
 	// DeliverAs: the file is handed to the merger under this name instead of
 	// Name (two different files under one name; C12 only).
 	DeliverAs string `json:"deliver_as,omitempty"`
@@ -100,7 +104,16 @@ func (f *PFile) contents() string {
 		c.dsl(&body)
 	}
 	sb.WriteString(f.relayout(body.String()))
-	return sb.String()
+	out := sb.String()
+	if len(f.Conds) == 0 && f.LongLine == 0 {
+		switch f.EOL {
+		case "crlf":
+			out = strings.ReplaceAll(out, "\n", "\r\n")
+		case "cr":
+			out = strings.ReplaceAll(out, "\n", "\r")
+		}
+	}
+	return out
 }
 
 func (f *PFile) deliveredName() string {
@@ -190,7 +203,7 @@ func genModuleSet(r *rng, wantConflicts int) *wlMerge {
 // genModuleSetOpt with crowd: always many files, colliding names likely.
 func genModuleSetOpt(r *rng, wantConflicts int, crowd bool) *wlMerge {
 	m := genDSLModel(r)
-	wl := &wlMerge{Variant: "base", Schema: []string{"1.2", "1.1", "1.2", "2.0-x"}[r.intn(4)]}
+	wl := &wlMerge{Variant: "base", Schema: []string{"1.2", "1.1", "1.2", "2.0-x", "1.2", "1.1", "1.2", ""}[r.intn(8)]}
 	nmod := 1 + r.intn(4)
 	many := r.chance(5) || crowd  // 8-16 files: beyond "a handful" thresholds
 	huge := !crowd && r.chance(1) // 20-72 files: thresholds of 32 and 64 files
@@ -588,6 +601,12 @@ func genModuleSetOpt(r *rng, wantConflicts int, crowd bool) *wlMerge {
 			wl.Conflicts = append(wl.Conflicts, Conflict{Kind: "syntaxerr", Files: []string{nf.Name}})
 		case 9: // delivered twice: decided below (needs the order)
 			wl.Conflicts = append(wl.Conflicts, Conflict{Kind: "file-twice"})
+		}
+	}
+	// line terminators
+	for _, f := range wl.Files {
+		if f.Kind == "module" && r.chance(6) {
+			f.EOL = []string{"crlf", "cr"}[r.intn(2)]
 		}
 	}
 	// spellings of file names: the merger receives names, not paths - "./core.fga",
